@@ -340,11 +340,9 @@ def _apply_oracles(obs, case, spec, flat, cfg, task, before_cfg, before_task, mo
             _v(obs, "C02", {"kind": sub}, f"generation {g}: position {repr(pos)[:120]} reported cost {cost!r}, "
                                           f"objective gives {true_cost!r}")
         if cost == cost:
-            fit = fitness_of(cost) if minmax == "min" else None
-            # documented function of the cost: 1/(1+c) for c>=0, 1+|c| for c<0.  For max tasks the library computes
-            # fitness on the internal (negated) cost; the property states the documented function of the *cost*, and
-            # the library's own docstring applies it to the minimised value - accept either reading for max tasks.
-            cands = [fitness_of(cost)] + ([fitness_of(-cost)] if minmax == "max" else [])
+            # documented function of the reported cost: 1/(1+c) for c>=0, 1+|c| for c<0 (calculate_fitness undoes the
+            # internal negation of max tasks, so it is the same function of the user's cost in both directions)
+            cands = [fitness_of(cost)]
             if not any(close(a.fitness, c, 1e-12) for c in cands) and "fitness" not in c02_seen:
                 c02_seen.add("fitness")
                 _v(obs, "C02", {"kind": "fitness-mismatch"},
@@ -500,24 +498,16 @@ def _apply_oracles(obs, case, spec, flat, cfg, task, before_cfg, before_task, mo
                 _v(obs, "C11" if gmode != "serial" else "C16", {"kind": "greedy-population"},
                    f"{gmode} greedy selection result differs from the element-wise serial outcome")
                 break
-    # initial population distinctness (continuous-only tasks; see DESIGN C11 iv)
-    if obs["strict"] and mon.snaps:
-        init = mon.snaps[0]
-        coords = [c for p, _, _ in init for c in p]
-        st["init_points"] = len(init)
-        # boundary values are legitimately shared (clipping); only interior values count
-        interior = []
-        for p, _, _ in init:
-            for c, v in zip(p, flat):
-                if v[1] < c < v[2]:
-                    interior.append((flat.index(v), c))
-        if opt_name != "ImperialistCompetitiveOptimization":
-            dup_points = len(init) - len({json.dumps(canon(p)) for p, _, _ in init})
-            # exact duplicates of whole interior points
-            ipts = [json.dumps(canon(p)) for p, _, _ in init if all(v[1] < c < v[2] for c, v in zip(p, flat))]
-            dup_interior = len(ipts) - len(set(ipts))
-            st["init_dup_points"] = dup_points
-            if dup_interior > 0:
+    # initial population distinctness (continuous-only tasks; DESIGN C11 iv): agents drawn by _generate_agents while the
+    # population is being initialised must not be exact copies of one another (interior points only: points clipped
+    # to a bound may legitimately coincide)
+    if obs["strict"]:
+        for req, got, phase, positions in mon.generated_init:
+            ipts = [json.dumps(canon(p)) for p in positions if all(v[1] < c < v[2] for c, v in zip(p, flat))]
+            st["init_points"] = st.get("init_points", 0) + len(ipts)
+            dup = len(ipts) - len(set(ipts))
+            if dup > 0:
                 _v(obs, "C11", {"kind": "initial-duplicates"},
-                   f"{dup_interior} of {len(init)} initial agents are exact duplicates of another one "
+                   f"{dup} of {len(positions)} randomly drawn initial agents are exact duplicates of another one "
                    f"(mode {obs['mode']}, workers {obs['workers']})")
+                break
